@@ -68,9 +68,11 @@ static void vec_case(aop_t op, uint64_t N, MODULE_TYPE mt, int native, uint64_t 
   // the whole aliased buffer holds live data, also beyond the aliased operand's size (stale limbs)
   for (uint64_t l = 0; l < limbs; l++)
     for (uint64_t i = 0; i < N; i++) zvec_limb(&X, l)[i] = rng_sbits(r, bits);
+  for (uint64_t l = 0; l < limbs; l++) structure_words(r, (uint64_t*)zvec_limb(&X, l), N, bits);
   for (uint64_t l = 0; l < xs; l++) memcpy(zvec_limb(&X2, l), zvec_limb(&X, l), N * 8);
   for (uint64_t l = 0; l < Y.size; l++)
     for (uint64_t i = 0; i < N; i++) zvec_limb(&Y, l)[i] = rng_sbits(r, bits);
+  for (uint64_t l = 0; l < Y.size; l++) structure_words(r, (uint64_t*)zvec_limb(&Y, l), N, bits);
   // p classes: 0 random, 1 small, 2 +-1 / N+-1 special branches, 3 far
   int64_t p;
   switch (pclass) {
@@ -250,6 +252,10 @@ void run_C13(void) {
           static const uint64_t CORE[][3] = {{1, 1, 1}, {2, 2, 2}, {3, 1, 2}, {1, 3, 0}, {2, 1, 3}, {1, 2, 2}};
           for (size_t c = 0; c < ARRAY_LEN(CORE); c++) vec_case(op, N, mt, cfg != 1, CORE[c][0], CORE[c][1], CORE[c][2], (unsigned)c % 4, (unsigned)(c + 1) % 4, (int)(c % 4), 50);
         }
+        if (N <= 64 || (th && N <= 1024)) {  // many limbs
+          static const uint64_t BIGS[][3] = {{9, 8, 7}, {8, 9, 17}, {17, 3, 9}, {7, 16, 16}, {16, 16, 16}, {5, 12, 0}, {33, 32, 31}};
+          for (size_t c = 0; c < ARRAY_LEN(BIGS); c++) vec_case(op, N, mt, cfg != 1, BIGS[c][0], BIGS[c][1], BIGS[c][2], (unsigned)c % 4, (unsigned)(c + 1) % 4, (int)(c % 4), 60);
+        }
         for (uint64_t rs = 0; rs <= smax; rs++)
           for (uint64_t xs = 0; xs <= smax; xs++)
             for (uint64_t ys = 0; ys <= (aop_binary(op) ? smax : 0); ys++) {
@@ -267,6 +273,12 @@ void run_C13(void) {
           if (!th && N > 1024 && ((rs + as + ni) & 1)) continue;
           idft_case(N, cfg == 2 ? NTT120 : FFT64, cfg != 1, rs, as, 0);
         }
+    if (N <= 64)
+      for (int cfg = 0; cfg < 3; cfg++) {
+        idft_case(N, cfg == 2 ? NTT120 : FFT64, cfg != 1, 9, 13, 1);
+        idft_case(N, cfg == 2 ? NTT120 : FFT64, cfg != 1, 16, 8, 1);
+        idft_case(N, cfg == 2 ? NTT120 : FFT64, cfg != 1, 12, 12, 1);
+      }
   }
   {
     static const uint64_t CN[] = {4, 64, 512, 2048, 8192};
